@@ -557,7 +557,12 @@ class Analysis:
             for d in s.decorator_list:
                 self.expr(f, d, st)
             inner = st.copy()
+            # a `return` of the nested function is not an exit of the enclosing method: its exits are recorded and dropped
+            n_exits, n_dirty, n_ret, fstack = len(f.exits), len(f.exit_dirty), len(f.ret_self), f.finally_stack
+            f.finally_stack = []
             self.block(f, s.body, inner)     # may run later, any number of times
+            del f.exits[n_exits:], f.exit_dirty[n_dirty:], f.ret_self[n_ret:]
+            f.finally_stack = fstack
             st.absorb_may(inner)
         elif isinstance(s, ast.Assert):
             self.expr(f, s.test, st)
